@@ -131,6 +131,44 @@ static void treeHistories(Ctx& c, Rng& rng, const std::string& name, unsigned hi
 	}
 }
 
+// Deterministic sweep: a tree grown key by key (ascending, descending, alternating around the middle), EVERY insertion first
+// attempted with the k-th allocation failing for k = 0, 1, 2, … until it succeeds (likewise the k-th element copy and the k-th
+// comparison). Growing key by key produces every cascade of splits up to a new root, i.e. insertions that create five and more
+// nodes at once, and the sweep places the failure at each of their allocation points (the random histories above pair a deep
+// cascade with one particular k only by luck). The ledger checks every event; the end of the history checks that nothing is
+// outstanding. With nodes that are single blocks of the manager a node lost by a failed insertion can never be given back.
+template<typename C, typename MM, typename Tr, bool isMap>
+static void treeInsertSweep(Ctx& c, const std::string& name, unsigned maxN)
+{
+	typedef Api<C, MM, Tr, isMap> A;
+	Rec& r = rec();
+	for (int pattern = 0; pattern < 3; ++pattern) {
+		r.begin(name + fmt(" insertion sweep, pattern %d", pattern));
+		{
+			std::unique_ptr<C> a(new C(Tr(), MM(1)));
+			unsigned maxK = 0;
+			for (unsigned i = 0; i < maxN; ++i) {
+				uint32_t v = pattern == 0 ? 1000 + i * 2 : pattern == 1 ? 100000 - i * 2 : (i % 2 ? 50000 + i : 50000 - i);
+				for (int fault : { (int)F_ALLOC, (int)F_COPY, (int)F_FUNC }) {
+					for (long k = 0; k < 64; ++k) {
+						size_t n = a->GetCount();
+						bool threw = runOp(fmt("a.Insert(const& %u) n=%zu", v, n), fault, k, [&] { A::insC(*a, v); });
+						if (threw && a->GetCount() != n) r.violation(fmt("a failed Insert changed the count from %zu to %zu", n, a->GetCount()));
+						if (!threw) {		// succeeded (the fault point k lies behind the operation's last fallible step): take the key out again for the next fault kind
+							if ((unsigned)k > maxK) maxK = (unsigned)k;
+							if (fault != F_FUNC) runOp(fmt("a.Remove(key %u)", v), F_NONE, 0, [&] { typename C::Key e = mk<typename C::Key>(v); a->Remove(e); });
+							break;
+						}
+					}
+				}
+			}
+			c.stats.count(fmt("insert_sweep.max_fallible_points.%u", std::min(maxK, 12u)));
+			runOp("destroy a", F_NONE, 0, [&] { a.reset(); });
+		}
+		r.end();
+	}
+}
+
 int main(int argc, char** argv)
 {
 	Ctx c = parseArgs(argc, argv);
@@ -162,6 +200,10 @@ int main(int argc, char** argv)
 	treeHistories<SET(ElemL, Node1, true), true>(c, rng, "TreeSet<node 1, pool 2, nothrow-move>", H, N);
 	treeHistories<SET(ElemC, Node2, true), true>(c, rng, "TreeSet<node 2, pool 1 (single blocks), copy-only>", H, N);
 	treeHistories<SET(ElemL, Node3, false), true>(c, rng, "TreeSet<node 3, pool 2 cache 2, nothrow-move>", H, N);
+	treeInsertSweep<SET(ElemC, Node2, true)>(c, "TreeSet<node 2, pool 1 (single blocks), copy-only>", c.thorough ? 300 : 90);
+	treeInsertSweep<SET(ElemL, Node1, true)>(c, "TreeSet<node 1, pool 2, nothrow-move>", c.thorough ? 200 : 60);
+	typedef TreeNode<3, 1, MemPoolParams<1, 0>, false> Node3s;
+	treeInsertSweep<MAP(ElemL, ElemC, Node3s, true)>(c, "TreeMap<node 3 non-continuous, pool 1 (single blocks), nothrow-move -> copy-only>", c.thorough ? 300 : 90);
 #endif
 	return c.finish();
 }
